@@ -191,7 +191,10 @@ func Shrink(h *History, prop, class string, eval evalFn, budget int) *History {
 			i++
 		}
 	}
-	return Compact(cur)
+	if c := Compact(cur); test(c) || tries >= budget && hasClass(eval(c), prop, class) {
+		return c
+	}
+	return cur
 }
 
 func fnUsed(h *History, fi int) bool {
